@@ -38,7 +38,11 @@ SPECS = {
     # ... arrays and ascending ranges together with the width-2 vectors they are built from
     "qarr": (dict(widths=(2,), arr_elems=_ARR3, arr_counts=(1, 2), upto_widths=(2,), bare=False,
                   qkinds=[("Signal", None), ("Variable", None), ("Port", "IN"), ("Port", "OUT")]), 3),
-    "qroutes": (dict(widths=(2,), arr_elems=[], arr_counts=(), upto_widths=(), route_widths=(2,), slice_widths=(2,),
+    # every spelling of every width (K[n], K[n-1:0], K[0:n-1]) x every qualifier kind, all ordered pairs
+    "qpairs": (dict(widths=(1, 2, 3, 4), arr_elems=_ARR3, arr_counts=(1, 2), upto_widths=(1, 2, 3, 4), slice_widths=(2, 3, 4)), 2),
+    "tpairs": (dict(widths=(1, 2, 3, 4, 5, 6), arr_elems=_ARR3, arr_counts=(1, 2), upto_widths=(1, 2, 3, 4, 5, 6),
+                    slice_widths=(2, 3, 4, 5, 6)), 2),
+    "qroutes": (dict(widths=(2,), arr_elems=[], arr_counts=(), upto_widths=(), route_widths=(2,),
                      qkinds=[("Signal", None), ("Temporary", None), ("Port", "IN"), ("Port", "OUT")]), 3),
     "t3": (dict(widths=(1, 2, 3, 4, 5, 6), arr_elems=_ARR3 + [("S", "D", 3)], arr_counts=(2, 3), upto_widths=(3,)), 3),
     "t4mix": (dict(widths=(1, 2, 3), arr_elems=[], arr_counts=(), upto_widths=(), bare=False, atoms=False,
@@ -51,8 +55,8 @@ SPECS = {
 for _n in range(1, 7):
     SPECS[f"t4w{_n}"] = (dict(widths=(_n,), arr_elems=[], arr_counts=(), upto_widths=(), atoms=False), 4)
 
-QUICK_SPECS = ["q3", "qarr", "qroutes"]
-THOROUGH_SPECS = ["t3", "troutes", "t4mix", "t4arr"] + [f"t4w{n}" for n in range(1, 7)]
+QUICK_SPECS = ["q3", "qarr", "qroutes", "qpairs"]
+THOROUGH_SPECS = ["t3", "troutes", "tpairs", "t4mix", "t4arr"] + [f"t4w{n}" for n in range(1, 7)]
 
 _spec_cache = {}
 
@@ -186,6 +190,7 @@ def part_types(run: Run):
             run.count("type_pairs_checked_with_issubclass", c["pairs_issubclass_calls"])
             run.count("type_orders_last_step_cached", c["cache_hits"])
             run.count("type_orders_raised", c["raised"])
+            run.count("type_open_pairs_checked_for_agreement", c.get("agreement_pairs", 0))
             run.cmax("max_classes_alive", res["max_present"])
             run.cmax("type_descriptors", res["descriptors"])
             got_sigs.update(res["sigs"])
@@ -263,6 +268,34 @@ def work_pyview(task):
     return out
 
 
+def work_pystruct(task):
+    """structure-only pass over deeper chains: root, qualifier, storage identity, _root + _ref_spec positions"""
+    q, kind, W, maxlen, extended, part, nparts = task
+    q = tuple(q)
+    env = V._imports()
+    out = {"problems": [], "n": 0, "nontrivial": 0, "rejected": 0, "task": [list(q), kind, W]}
+    for n, (ch, m) in enumerate(V.chains(kind, W, maxlen, extended)):
+        if n % nparts != part or m[0] == "ARR":
+            continue
+        terms = [None] + (list(range(len(m[1]))) if m[0] != "Bit" else [])
+        for it in terms:
+            pr, err = V.py_check_structure(env, q, kind, W, ch, it)
+            out["n"] += 1
+            if pr is None:
+                out["rejected"] += 1
+                out.setdefault("rejected_example", [V.chain_text(ch), err])
+                continue
+            if len(ch) >= 2:
+                out["nontrivial"] += 1
+            for tag, text in pr:
+                key = f"view/py/{V.qname(q)}/{kind}{W}/{V.chain_key(ch)}{'' if it is None else '/it%d' % it}/{tag}"
+                out["problems"].append((key, f"{V.qname(q)}[{V.KIND_PY.get(kind, 'Array[BitVector[2],2]')}[{W}]] root, view root"
+                                             f"{V.chain_text(ch)}{'' if it is None else ' element %d of iteration' % it}: {text}",
+                                        {"part": "pystruct", "q": list(q), "kind": kind, "W": W, "chain": [list(o) for o in ch],
+                                         "iter_elem": it, "tag": tag}))
+    return out
+
+
 def write_backgrounds(W, extended):
     """root values under which every value is written through the view: all-zeros and all-ones show every
     bit that is set or cleared outside / not set or cleared inside the view; thorough adds 0101 / 1010"""
@@ -302,7 +335,33 @@ def part_pyview(run: Run):
             problems.append(((V.qname(tuple(q)), rp["tag"]), (W, len(rp["chain"]), rp["iter_elem"] is not None, key), key, what, rp))
         if "rejected_example" in res:
             run.note(f"pyview chain rejected: {res['rejected_example']}")
+    # deeper chains, structure only (no writes): three stacked operations, array elements
+    arr_q = [("Signal", None), ("Variable", None)]
+    st = []
+    for q in V.QKINDS:
+        if run.thorough:
+            st += [(q, k, 4, 3, True, i, 4) for k in ("BV", "U", "S") for i in range(4)]
+            st += [(q, "BV", 5, 3, False, i, 4) for i in range(4)]
+        else:
+            st += [(q, "BV", 4, 3, False, i, 2) for i in range(2)]
+    for q in arr_q:
+        st += [(q, "ARR", 4, 4, run.thorough, i, 2) for i in range(2)]
+    for kind, res in pmap(work_pystruct, st, seed=run.seed):
+        if kind != "ok":
+            run.tool_error(f"pystruct worker failed: {res[-800:]}")
+            continue
+        run.count("py_struct_chains", res["n"])
+        run.count("py_struct_chains_nontrivial", res["nontrivial"])
+        run.count("py_struct_chain_rejected", res["rejected"])
+        q, knd, W = res["task"]
+        for key, what, rp in res["problems"]:
+            problems.append(((V.qname(tuple(q)), rp["tag"]), (W, len(rp["chain"]), rp["iter_elem"] is not None, key), key, what, rp))
+        if "rejected_example" in res:
+            run.note(f"pystruct chain rejected: {res['rejected_example']}")
     report_grouped(run, problems, 3, "py_problems_not_listed")
+    ns = run.counters.get("py_struct_chains", 0)
+    if ns == 0 or (run.counters.get("py_struct_chain_rejected", 0) * 10 > ns and not run.violations):
+        run.tool_error(f"pystruct vacuous: chains={ns} rejected={run.counters.get('py_struct_chain_rejected', 0)}")
     n = run.counters.get("py_chains", 0)
     if n == 0 or ((run.counters.get("py_chain_rejected", 0) * 10 > n or run.counters.get("py_writes", 0) < n)
                   and not run.violations):
@@ -346,14 +405,18 @@ def work_emit(tasks):
 
 def emit_tasks(run: Run):
     arr_q = [("Signal", None), ("Variable", None)]
-    fam = [("BV", 4, 2, False, V.QKINDS), ("ARR", 4, 2, False, arr_q)]
+    # (root kind, root width, max chain length, extended operations, qualifier kinds, operation filter)
+    fam = [("BV", 4, 2, False, V.QKINDS, None), ("ARR", 4, 2, False, arr_q, None),
+           # three stacked plain subscripts x[a:b][c:d][e:f] / x[a:b][c:d][i], also inside an array element
+           ("BV", 4, 3, False, arr_q, V.SUBSCRIPTS), ("ARR", 4, 4, False, arr_q, V.SUBSCRIPTS)]
     if run.thorough:
-        fam = [("BV", 4, 2, False, V.QKINDS), ("BV", 5, 2, False, V.QKINDS), ("BV", 6, 2, False, V.QKINDS),
-               ("U", 4, 2, True, V.QKINDS), ("S", 4, 2, True, V.QKINDS),
-               ("BV", 4, 3, False, arr_q), ("ARR", 4, 3, True, arr_q)]
+        fam = [("BV", 4, 2, False, V.QKINDS, None), ("BV", 5, 2, False, V.QKINDS, None), ("BV", 6, 2, False, V.QKINDS, None),
+               ("U", 4, 2, True, V.QKINDS, None), ("S", 4, 2, True, V.QKINDS, None),
+               ("BV", 4, 3, False, arr_q, None), ("ARR", 4, 3, True, arr_q, None),
+               ("BV", 5, 3, False, arr_q, V.SUBSCRIPTS), ("ARR", 4, 4, False, arr_q, V.SUBSCRIPTS)]
     seen = set()
-    for kind, W, maxlen, ext, qs in fam:
-        for ch, m in V.chains(kind, W, maxlen, ext):
+    for kind, W, maxlen, ext, qs, only in fam:
+        for ch, m in V.chains(kind, W, maxlen, ext, only):
             for term in ("whole", "iter"):
                 if term == "iter" and m[0] == "Bit":
                     continue
@@ -456,9 +519,9 @@ def main(run: Run):
              "views: every chain of view operations up to the tier's length x qualifier kind x terminal (whole|iterate) x (read|write), "
              "Python level with all written values and emitted level simulated for all input values (non-trivial = at least one view "
              "operation / at least two distinct simulated outputs)",
-        evaluations=c.get("type_orders_explored", 0) + c.get("py_chains", 0) + c.get("emit_ok", 0) + c.get("emit_mismatch", 0),
+        evaluations=c.get("type_orders_explored", 0) + c.get("py_chains", 0) + c.get("py_struct_chains", 0) + c.get("emit_ok", 0) + c.get("emit_mismatch", 0),
         distinct_nontrivial=(c.get("type_orders_explored", 0) - c.get("type_orders_last_step_cached", 0) - c.get("type_orders_raised", 0))
-        + c.get("py_chains_nontrivial", 0) + c.get("emit_designs_nontrivial", 0),
+        + c.get("py_chains_nontrivial", 0) + c.get("py_struct_chains_nontrivial", 0) + c.get("emit_designs_nontrivial", 0),
     )
 
 
@@ -482,6 +545,11 @@ def replay(run: Run, data):
         W = data["W"]
         patterns = write_backgrounds(W, True)
         pr, _ = V.py_check_chain(env, q, data["kind"], W, tuple(tuple(o) for o in data["chain"]), data["iter_elem"], apis, patterns)
+        print(pr)
+        return not any(tag == data["tag"] for tag, _ in (pr or []))
+    if part == "pystruct":
+        pr, _ = V.py_check_structure(V._imports(), tuple(data["q"]), data["kind"], data["W"],
+                                     tuple(tuple(o) for o in data["chain"]), data["iter_elem"])
         print(pr)
         return not any(tag == data["tag"] for tag, _ in (pr or []))
     if part == "emit":
